@@ -127,6 +127,11 @@ theorem mbFlush_ok (fl) (s : St) : (Inv fl s → Inv fl (mbFlush fl s)) ∧ Same
   · upd
   · exact same_ok fl s
 
+theorem mbFlushMid_ok (fl) (s : St) : (Inv fl s → Inv fl (mbFlushMid fl s)) ∧ SameAcct s (mbFlushMid fl s) := by
+  unfold mbFlushMid; split
+  · upd
+  · exact same_ok fl s
+
 theorem mbGot_ok (fl) (s : St) (k b) : (Inv fl s → Inv fl (mbGot fl s k b)) ∧ SameAcct s (mbGot fl s k b) := by
   unfold mbGot; split
   · upd
@@ -174,7 +179,7 @@ theorem recvStep_ok {fl cfg s t f hd n got s' p'} (hs : recvStep fl cfg s t f hd
       have h1 := (pop_ok fl s t f hd.name n got k hd.name.idx (.fin { tag := .ok, got := got ++ s.buf.take k })
         ⟨rfl, rfl, rfl, rfl⟩).thenSame (mbGot_ok fl _ k false)
       split
-      · exact h1.thenSame (mbFlush_ok fl _)
+      · exact h1.thenSame (mbFlushMid_ok fl _)
       · exact h1
     · cases hs
       exact (pop_ok fl s t f hd.name n got k hd.name.idx _ ⟨rfl, rfl, rfl, rfl⟩).thenSame (mbGot_ok fl _ k false)
